@@ -863,3 +863,155 @@ example :
       | .unmodelled _ => false) = true := by decide +kernel
 
 end FeedVerif.Mixin
+
+/-! ### text constructs of the XML formats (M-mixin stage 2: `push_content` / `pop_content` / `pop()` with content parameters) -/
+
+namespace FeedVerif.Mixin
+
+theorem title_table_facts :
+    Gen.Mixin.titleHandlersL.all (fun h => !(h == S "rss") && !(h == S "channel") && !(h == S "feed") && !(h == S "item") && !(h == S "entry") && (dateKey h).isNone) = true ∧
+    canBeRelativeUri.contains (S "title") = false ∧ htmlTypes.contains (S "text/plain") = false ∧
+    (canonKey (S "title") == canonKey (S "title_detail")) = false ∧ canonKey (S "title") = S "title" := by decide +kernel
+
+theorem isTitle_facts (h : Str) (ht : isTitle h = true) :
+    (h == S "rss") = false ∧ (h == S "channel") = false ∧ (h == S "feed") = false ∧ (h == S "item") = false ∧ (h == S "entry") = false ∧ dateKey h = none := by
+  unfold isTitle at ht
+  obtain ⟨e, hm, he⟩ := List.any_eq_true.mp ht
+  have hall := List.all_eq_true.mp title_table_facts.1 e hm
+  have : e = h := by simpa using he
+  rw [this] at hall
+  simp only [Bool.and_eq_true, Bool.not_eq_true', Option.isNone_iff_eq_none] at hall
+  obtain ⟨⟨⟨⟨⟨a, b⟩, c⟩, d⟩, e'⟩, f⟩ := hall
+  exact ⟨a, b, c, d, e', f⟩
+
+theorem find_map_other (k k' : Str) (v : V) (hne : (k' == k) = false) : ∀ d : D,
+    ((d.map fun p => if (p.1 == k') = true then (k', v) else p).find? (·.1 == k)).map (·.2) = (d.find? (·.1 == k)).map (·.2) := by
+  intro d
+  induction d with
+  | nil => rfl
+  | cons p rest ih =>
+    simp only [List.map_cons, List.find?_cons]
+    by_cases hp : (p.1 == k') = true
+    · have hpk : p.1 = k' := by simpa using hp
+      have h2 : (p.1 == k) = false := by rw [hpk]; exact hne
+      simp only [hp, ↓reduceIte, hne, h2]
+      exact ih
+    · have hp' : (p.1 == k') = false := by simpa using hp
+      simp only [hp', Bool.false_eq_true, ↓reduceIte]
+      cases (p.1 == k) with
+      | true => rfl
+      | false => exact ih
+
+theorem dget_dset_other (d : D) (k k' : Str) (v : V) (hne : (k' == k) = false) : dget (dset d k' v) k = dget d k := by
+  unfold dget dset
+  by_cases hany : d.any (·.1 == k') = true
+  · simp only [hany, ↓reduceIte]
+    exact find_map_other k k' v hne d
+  · simp only [hany, Bool.false_eq_true, ↓reduceIte, List.find?_append]
+    cases hf : d.find? (·.1 == k) with
+    | some x => simp
+    | none => simp [hne]
+
+/-- the core after the start tag of an attribute-less element: what matters is unchanged -/
+theorem startPre_nil (o : Ops) (c : Core) (tag : Str) :
+    (startPre o c tag []).1.entries = c.entries ∧ (startPre o c tag []).1.inentry = c.inentry ∧ (startPre o c tag []).1.nsMap = c.nsMap ∧
+    (startPre o c tag []).2 = [] ∧ (startPre o c tag []).1.version = c.version ∧ (startPre o c tag []).1.titleDepth = c.titleDepth ∧
+    (startPre o c tag []).1.incontent = c.incontent ∧ (startPre o c tag []).1.depth = c.depth + 1 ∧ (startPre o c tag []).1.infeed = c.infeed := by
+  unfold startPre
+  simp only [List.map_nil, List.foldl_nil, dictOf]
+  split
+  · split <;> simp
+  · simp
+
+/-- **The title of an Atom entry comes back character for character** (C02): for every handler name that reaches the title handlers
+(`title`, `dc:title` under whatever prefix the document binds), every text `t` (however the tokenizer chunks it: C10) and every state
+inside an entry that has no title yet, after `<title>t</title>` in an Atom feed the entry's `title` is `repair(strip(t))` — no guess,
+no sanitizer, no resolver is consulted — the element stack is as before and the text construct is closed again. -/
+theorem atom_entry_title_verbatim (o : Ops) (s : MSt) (tag t : Str) (e0 : Entry) (es : List Entry)
+    (ht : isTitle (handlerName s.c tag) = true) (hnc : s.c.incontent = false)
+    (hin : s.c.inentry = true) (hen : s.c.entries = e0 :: es) (hfresh : e0.depths.find? (·.1 == S "title") = none)
+    (htd : s.c.titleDepth = -1) (hatom : (S "atom").isPrefixOf s.c.version = true) (hde : o.decodeEnt = fun _ x => x) :
+    ∃ s' e', mrun o s [.start tag [], .data t, .stop tag] = .ok s' ∧ s'.stack = s.stack ∧ s'.c.entries = e' :: es ∧
+      dget e'.d (S "title") = some (.s (o.fix (stripS t))) ∧ s'.c.incontent = false := by
+  obtain ⟨f1, f2, f3, f4, f5, f6⟩ := isTitle_facts _ ht
+  obtain ⟨_, tu, tp, tk, tc⟩ := title_table_facts
+  have hpre := startPre_nil o s.c tag
+  have hh : handlerName (startPre o s.c tag []).1 tag = handlerName s.c tag := by
+    unfold handlerName; rw [hpre.2.2.1]
+  -- the state after the start tag
+  let c0 := (startPre o s.c tag []).1
+  let c1 := (pushContent c0 (S "title") [] (S "text/plain") (c0.infeed || c0.inentry)).1
+  have h1 : mstep o s (.start tag []) = .ok ⟨c1, ⟨S "title", true, []⟩ :: s.stack⟩ := by
+    simp only [mstep, startTag, hnc, Bool.false_eq_true, ↓reduceIte, startTag0, hh, hpre.2.2.2.1]
+    unfold dispatchCore
+    simp only [f1, f2, f3, f4, f5, f6, ht, Bool.false_eq_true, ↓reduceIte, Bool.or_self, Option.isSome_none]
+    have hx : startContent c0 (S "title") [] (S "text/plain") (c0.infeed || c0.inentry) = .ok (c1, some ⟨S "title", true, []⟩) := by
+      have he : (c0.infeed || c0.inentry) = true := by simp [c0, hpre.2.1, hin]
+      have hx1 : (some (mapContentType (S "text/plain")) == some XHTML) = false := by decide +kernel
+      unfold startContent
+      simp only [pushContent, sget, List.find?_nil, Option.map_none, Option.getD_none, Option.map_some, c1, he, hx1, Bool.false_eq_true, ↓reduceIte]
+    simp only [c0] at hx
+    rw [hx]
+    rfl
+  have h2 : mstep o ⟨c1, ⟨S "title", true, []⟩ :: s.stack⟩ (.data t) = .ok ⟨c1, ⟨S "title", true, [t]⟩ :: s.stack⟩ := by
+    simp [mstep, handleData]
+  -- facts about c1
+  have c1i : c1.incontent = true := rfl
+  have c1e : c1.entries = e0 :: es := by simp only [c1, pushContent, c0, hpre.1, hen]
+  have c1n : c1.inentry = true := by simp only [c1, pushContent, c0, hpre.2.1, hin]
+  have c1v : c1.version = s.c.version := by simp only [c1, pushContent, c0, hpre.2.2.2.2.1]
+  have c1t : c1.titleDepth = -1 := by simp only [c1, pushContent, c0, hpre.2.2.2.2.2.1, htd]
+  have c1m : c1.nsMap = s.c.nsMap := by simp only [c1, pushContent, c0, hpre.2.2.1]
+  have c1b : cpBase64 c1 = false := by
+    have hx2 : isBase64 [] (mapContentType (S "text/plain")) = false := by decide +kernel
+    simp only [c1, pushContent, cpBase64, sget, List.find?_nil, Option.map_none, Option.getD_none, hx2]
+  have c1ty : c1.cp.map (·.type) = some (S "text/plain") := by
+    have hx3 : mapContentType (S "text/plain") = S "text/plain" := by decide +kernel
+    simp only [c1, pushContent, sget, List.find?_nil, Option.map_none, Option.getD_none, Option.map_some, hx3]
+  have hh1 : handlerName c1 tag = handlerName s.c tag := by unfold handlerName; rw [c1m]
+  -- what pop() computes
+  have hout : contentOutput o c1 (S "title") (stripS t) = (some (S "text/plain"), o.fix (stripS t)) := by
+    unfold contentOutput
+    simp only [c1b, tu, c1ty, c1v, hatom, hde, Bool.false_eq_true, ↓reduceIte, Bool.false_and, Bool.not_true, Option.getD_some]
+    have : htmlTypes.contains (mapContentType (S "text/plain")) = false := by decide +kernel
+    simp only [this, Bool.false_and, Bool.false_eq_true, ↓reduceIte]
+  have hdepth : (decide ((-1 : Int) < c1.titleDepth) && decide (c1.titleDepth ≤ c1.depth)) = false := by rw [c1t]; simp
+  refine ⟨⟨endFinish o (afterTitle (S "title") (popContent o ⟨c1, ⟨S "title", true, [t]⟩ :: s.stack⟩ (S "title"))),
+           (popContent o ⟨c1, ⟨S "title", true, [t]⟩ :: s.stack⟩ (S "title")).2.stack⟩,
+          { d := fset (fset e0.d (S "title") (.s (o.fix (stripS t)))) (S "title" ++ S "_detail") (detailOf c1.cp (some (S "text/plain")) (o.fix (stripS t))),
+            depths := (e0.depths.filter (·.1 != S "title")) ++ [(S "title", c1.depth)] }, ?_, ?_, ?_, ?_, ?_⟩
+  · simp only [mrun, h1, h2]
+    simp only [mstep, endTag, c1i, ↓reduceIte, hh1]
+    unfold endContent contentEndKey
+    simp only [ht, ↓reduceIte, bne_self_eq_false, Bool.false_eq_true]
+  · simp only [popContent, popFull, bne_self_eq_false, Bool.false_eq_true, ↓reduceIte, Bool.not_true, List.flatten_cons, List.flatten_nil,
+      List.append_nil, hout, c1n]
+    have : ((S "title" == S "category") || (S "title" == S "tags") || (S "title" == S "itunes_keywords")) = false := by decide +kernel
+    simp only [this, Bool.false_eq_true, ↓reduceIte, beq_self_eq_true, Bool.true_and, hdepth]
+  · have ha := afterTitle_frame (S "title") (popContent o ⟨c1, ⟨S "title", true, [t]⟩ :: s.stack⟩ (S "title"))
+    simp only [endFinish, ha.1]
+    simp only [popContent, popFull, bne_self_eq_false, Bool.false_eq_true, ↓reduceIte, Bool.not_true, List.flatten_cons, List.flatten_nil,
+      List.append_nil, hout, c1n, c1i, c1e, updHead]
+    have : ((S "title" == S "category") || (S "title" == S "tags") || (S "title" == S "itunes_keywords")) = false := by decide +kernel
+    have hd2 : ((S "title" == S "description")) = false := by decide +kernel
+    simp only [this, Bool.false_eq_true, ↓reduceIte, beq_self_eq_true, Bool.true_and, hdepth, hd2, writeEntry, hfresh, Option.map_none]
+  · simp only [fset]
+    have hk2 : (canonKey (S "title" ++ S "_detail") == S "title") = false := by decide +kernel
+    rw [dget_dset_other _ _ _ _ hk2]
+    have := dget_dset_same e0.d (canonKey (S "title")) (.s (o.fix (stripS t)))
+    rw [tc] at this
+    rw [tc]
+    exact this
+  · have ha := afterTitle_frame (S "title") (popContent o ⟨c1, ⟨S "title", true, [t]⟩ :: s.stack⟩ (S "title"))
+    simp only [endFinish, ha.2.2.2.2.2.2.2.2.2.1]
+    rfl
+
+
+/-- non-vacuity: `<title>` with padded text in an Atom 1.0 entry (strict back end, destructive stub sanitizer that is never consulted) -/
+example :
+    (match mrun { base := ⟨fun _ r => r, fun u => u, fun _ r => r⟩, join := fun _ u => u, fix := id, loose := false, sanitize := fun _ _ => S "CLEAN", looksHtml := fun _ => true }
+        { c := { entries := [{}], inentry := true, infeed := true, version := S "atom10" } } [.start (S "title") [], .data (S "  a <b> & c "), .stop (S "title")] with
+      | .ok s' => (s'.c.entries.head?.bind fun e => dget e.d (S "title")) == some (.s (S "a <b> & c")) && !s'.c.incontent && s'.stack.isEmpty
+      | .unmodelled _ => false) = true := by decide +kernel
+
+end FeedVerif.Mixin
